@@ -390,6 +390,12 @@ func (c *EvalCtx) valEq(n *Node, a, b Val) *T {
 			cs = append(cs, c.valEq(n, c.st.load(x.Arr.sub(x.Lo+i)), c.st.load(y.Arr.sub(y.Lo+i))))
 		}
 		return mkAnd(cs...)
+	case MapV:
+		y, ok := b.(MapV)
+		if !ok {
+			specErr(n, "comparison of map with %T", b)
+		}
+		return mkBool(x.Cell == y.Cell) // identity, as for Go maps
 	case Tuple:
 		y, ok := b.(Tuple)
 		if !ok || len(x) != len(y) {
@@ -699,6 +705,19 @@ func (c *EvalCtx) call(n *Node) Val {
 	case "abs_has_error":
 		k, _ := c.evalTerm(n.Kids[0]).intVal()
 		return mkVar(fmt.Sprintf("hasError!v%d", k), SBool)
+	case "decoded":
+		k, _ := c.evalTerm(n.Kids[0]).intVal()
+		fnm, _ := arg(1).(Text).concrete()
+		v, ok := c.st.Ghost[fmt.Sprintf("json:%d:%s", k, fnm)]
+		if !ok {
+			specErr(n, "decode %d did not happen (or did not set %s) on this path", k, fnm)
+		}
+		return v
+	case "decode_happened":
+		k, _ := c.evalTerm(n.Kids[0]).intVal()
+		fnm, _ := arg(1).(Text).concrete()
+		_, ok := c.st.Ghost[fmt.Sprintf("json:%d:%s", k, fnm)]
+		return mkBool(ok)
 	case "fresh_map":
 		m, ok := arg(0).(MapV)
 		if !ok || m.Cell == 0 {
